@@ -137,11 +137,11 @@ def run(ctx):
             ctx.count("entry-point-call")
             if before != after:
                 ctx.violation("monitor", "%s modified a caller-owned argument%s" % (name, " (call raised %s)" % err if err else ""), {"call": name})
-            if err is not None and not expect_fail:
-                if "read-only" in err or "WRITEABLE" in err or "writeable" in err:
-                    ctx.violation("monitor", "%s attempts to write through a read-only argument: %s" % (name, err), {"call": name})
-                else:
-                    ctx.violation("monitor", "%s fails on read-only / reordered inputs: %s" % (name, err), {"call": name})
+            if err is not None and ("read-only" in err or "WRITEABLE" in err or "writeable" in err):
+                # (also for calls that are allowed to fail: a failure for THIS reason is an attempted write into the caller's array)
+                ctx.violation("monitor", "%s attempts to write through a read-only argument: %s" % (name, err), {"call": name})
+            elif err is not None and not expect_fail:
+                ctx.violation("monitor", "%s fails on read-only / reordered inputs: %s" % (name, err), {"call": name})
             return err
         for i in range(ctx.budget(8, 32)):
             WRITABLE[0] = bool((i // 4) % 2)
@@ -181,6 +181,22 @@ def run(ctx):
             call("ticc_labels(list)", lambda: front_end.ticc_labels(lst, window_size=W, num_clusters=K), [lst] + series, expect_fail=True)
             S = ro(np.cov(np.asarray(data).T) if n == N else np.eye(n) * 2.0 + 0.3, order)
             call("admm_optimize_theta[%s]" % order, lambda: admm.admm_optimize_theta(S, lam, W, N), [S, lam])
+            # covariances of the kinds a cluster can produce on real recordings: a sensor that never moves (zero row, column and
+            # diagonal entry), two sensors that read the same (singular), a tiny and a huge scale, counts stored as integers; for
+            # these the solver may well fail - but whether it returns or raises the caller's matrix is the caller's
+            base_cov = np.cov(rng.normal(size=(n + 6, n)).T) if n > 1 else np.array([[1.7]])
+            kinds = {"dead sensor": base_cov.copy(), "duplicated sensor": base_cov.copy(), "tiny scale": base_cov * 1e-12, "huge scale": base_cov * 1e9,
+                     "integer counts": np.round(base_cov * 8).astype(np.int64)}
+            kinds["dead sensor"][n - 1, :] = 0.0
+            kinds["dead sensor"][:, n - 1] = 0.0
+            if n > 1:
+                kinds["duplicated sensor"][n - 1, :] = kinds["duplicated sensor"][0, :]
+                kinds["duplicated sensor"][:, n - 1] = kinds["duplicated sensor"][:, 0]
+                kinds["duplicated sensor"][n - 1, n - 1] = kinds["duplicated sensor"][0, 0]
+            for kind_, mat in kinds.items():
+                Sd = ro(mat, order)
+                call("admm_optimize_theta[%s, %s]" % (kind_, order), lambda: admm.admm_optimize_theta(Sd, lam, W, N, max_iterations=60), [Sd, lam], expect_fail=True)
+                ctx.mark_nontrivial(("degenerate covariance", kind_, i))
             tab = ro(rng.normal(size=(T, K)), order)
             call("assign_point_cluster_labels[%s]" % order, lambda: cla.assign_point_cluster_labels(label_assignment_cost=tab, label_switching_cost=beta), [tab, beta])
             # the labelling step as a library function: a model state whose matrices the caller built (either memory order,
